@@ -290,7 +290,16 @@ fn run_op(ctx: &Ctx, line: &str) -> String {
             Some(c) => cache_query(c, op, toks),
         }
     };
-    match toks[0] {
+    // KI / TI / LI / PI: the same queries, answered by the implementation only (mapper = cache is still
+    // required); used where the model would be quadratic
+    let op0 = match toks[0] {
+        "KI" => "K",
+        "TI" => "T",
+        "LI" => "L",
+        "PI" => "P",
+        o => o,
+    };
+    match op0 {
         "I" => or_panic(guarded(|| {
             let v: Vec<String> = pm.iter().map(|it| show_item(&it)).collect();
             v.join(";")
@@ -853,7 +862,7 @@ fn run_sink_op(mapping: &[u8], toks: &[&str]) -> String {
 }
 
 fn is_group_op(l: &str) -> bool {
-    matches!(l.split(' ').next().unwrap_or(""), "I" | "D" | "K" | "T" | "L" | "P" | "S" | "Y" | "G" | "W" | "U" | "Z" | "ZI" | "DOM" | "US")
+    matches!(l.split(' ').next().unwrap_or(""), "I" | "D" | "K" | "T" | "L" | "P" | "KI" | "TI" | "LI" | "PI" | "S" | "Y" | "G" | "W" | "U" | "Z" | "ZI" | "DOM" | "US")
 }
 fn is_x_op(l: &str) -> bool {
     matches!(l.split(' ').next().unwrap_or(""), "k" | "t" | "l" | "p" | "s" | "g")
